@@ -77,7 +77,7 @@ theorem InvL.transfer {g g' : Ghost} {s s' : KState ℚ σ} (hi : InvL g s)
     (hL : ∀ e L p, (s.ev e).cbs = some L → Cb.resume p ∈ L → g'.run ≠ some p →
       ∃ L', (s'.ev e).cbs = some L' ∧ Cb.resume p ∈ L')
     (hg : g'.rem = g.rem ∧ g'.e0 = g.e0 ∧ g'.strict = g.strict := by exact ⟨rfl, rfl, rfl⟩) : InvL g' s' :=
-  hi.transfer' hsz hp ho hrun hlv (fun p t h ht hr => h.keep ht hg hN (fun e L hLe hm => hL e L p hLe hm hr))
+  hi.transfer' hsz hp ho hrun hlv (fun p _ h ht hr => h.keep ht hg hN (fun e L hLe hm => hL e L p hLe hm hr))
 
 theorem InvL.congr {g : Ghost} {s s' : KState ℚ σ} (hi : InvL g s) (h : SameC s s') : InvL g s' := by
   refine hi.transfer (by rw [h.size]) h.proc (fun p hp => by rw [← h.out]; exact hp) (fun _ h => h) (fun h => h)
